@@ -14,13 +14,13 @@ LEVEL = "fault_enumeration"
 WORKERS = {"quick": 8, "thorough": 16}
 BUDGET_S = {"quick": 50, "thorough": 700}
 RULE = (
-    "Two generated families. (pure) Hypothesis draws a storage map over nested keys from a three-letter "
-    "alphabet (pure: two letters), each prefix setting any subset of the roles data/cache/remote to an ObjectStorage or a "
+    "Two generated families. (pure) Hypothesis draws a storage map over nested keys from a two-letter "
+    "alphabet, each prefix setting any subset of the roles data/cache/remote to an ObjectStorage or a "
     "FileStorage (built by item assignment in drawn order, or by add_data/add_cache/add_remote parents-first), "
     "and query keys; StorageMapping[key], .get, get_<role>_odb and get_<role>(entry) must equal an independent "
     "per-role longest-prefix resolver and hand-built object / file paths. (flow) Hypothesis draws a workspace "
     "(files, nested directories, grouping directories, duplicated contents and cloned directories), the tracked "
-    "keys (depth 1-2, directories tracked as unloaded .dir entries), 1-4 storage prefixes (root, tracked keys, "
+    "keys (depth 1-2, directories tracked as unloaded .dir entries), 1-5+ storage prefixes (root, tracked keys, "
     "their parents, untracked keys) that set cache and remote independently (role inherited from a shorter "
     "prefix, redundant re-statement, two prefixes sharing a remote, two remotes sharing a cache, a longer prefix "
     "overriding the remote), 1-3 caches and 1-3 remotes of both local store classes, remote index on/off, "
@@ -54,6 +54,8 @@ ASSUMPTIONS = [
     "and equality is demanded only for maps without remote overrides (class 'exact')",
     "add_data/add_cache/add_remote copy the roles resolved at the new prefix into its entry; they are used "
     "parents-first, where that equals plain per-role resolution",
+    "the checkout target already contains the (untracked) parent directory of a tracked key of depth 2, as any "
+    "real workspace does; apply() does not create it for a tracked file",
 ]
 
 SIG = "md5"
@@ -764,7 +766,7 @@ def run_case(case, ctx):
 def run(ctx):
     ok = ctx.run_given(pure_cases(), run_case, ctx.n(quick=300, thorough=4000))
     if ok:
-        ctx.run_given(flow_cases(), run_case, ctx.n(quick=70, thorough=700))
+        ctx.run_given(flow_cases(), run_case, ctx.n(quick=100, thorough=700))
 
 
 def replay(case, ctx):
